@@ -813,8 +813,15 @@ class TrialDataManager(object):
             # If event indices are stored, we need to re-assign also those event
             # indices according to the new order.
             if self._src_evt_idxs is not None:
-                self._src_evt_idxs[1] = np.take(
-                    sorted_idxs, self._src_evt_idxs[1])
+                # The i-th sorted event is the former event sorted_idxs[i].
+                # Hence, a former event index has to be mapped to its new
+                # position via the inverse permutation.
+                new_idxs = np.empty_like(sorted_idxs)
+                new_idxs[sorted_idxs] = np.arange(len(sorted_idxs))
+                self._src_evt_idxs = (
+                    self._src_evt_idxs[0],
+                    np.take(new_idxs, self._src_evt_idxs[1])
+                )
 
         # Create the src_evt_idxs property data in case it was not provided by
         # the event selection. In that case all events are selected for all
